@@ -314,6 +314,22 @@ impl Exp {
         }
     }
 
+    /// True if a variable occurs in the expression.
+    pub(crate) fn has_variable(&self) -> bool {
+        match self {
+            Exp::Number(_) => false,
+            Exp::Variable(_) => true,
+            Exp::Abs(inner) | Exp::Not(inner) | Exp::UnOp(_, inner) => inner.has_variable(),
+            Exp::Min(exps) | Exp::Max(exps) | Exp::And(exps) | Exp::Or(exps) => {
+                exps.iter().any(|exp| exp.has_variable())
+            }
+            Exp::Xor(lhs, rhs)
+            | Exp::Implies(lhs, rhs)
+            | Exp::Iff(lhs, rhs)
+            | Exp::BinOp(_, lhs, rhs) => lhs.has_variable() || rhs.has_variable(),
+        }
+    }
+
     /// True if the expression contains a division whose denominator is not a
     /// non-zero numeric constant (a zero divisor or a non-constant divisor).
     pub(crate) fn has_unresolved_division(&self) -> bool {
@@ -357,6 +373,12 @@ impl Exp {
     pub fn flatten(self) -> Exp {
         match self {
             Exp::BinOp(op, lhs, rhs) => match (op, *lhs, *rhs) {
+                // a product of two factors that both hold variables is not linear
+                // whatever its expansion is: it is left as it is (distributing it
+                // doubles the expression at every further factor)
+                (BinOp::Mul, lhs, rhs) if lhs.has_variable() && rhs.has_variable() => {
+                    Exp::BinOp(BinOp::Mul, lhs.flatten().to_box(), rhs.flatten().to_box())
+                }
                 //(a +- b)c = ac +- bc
                 (BinOp::Mul, Exp::BinOp(inner_op @ (BinOp::Add | BinOp::Sub), lhs, rhs), c) => {
                     Exp::BinOp(
